@@ -111,4 +111,14 @@ theorem transfer_eq (c : Cfg) (hv : c.Valid) (seed wk rk : Nat) (x : List α) : 
   unfold transfer
   simp only [h.1, if_true, h.2]
 
+/-- the lossy decoding is the identity on output without 0xFF bytes -/
+theorem lossyFF_id (bs : List Nat) (h : ∀ b ∈ bs, b ≠ 255) : lossyFF bs = bs := by
+  induction bs with
+  | nil => rfl
+  | cons a t ih =>
+    have ha : a ≠ 255 := h a List.mem_cons_self
+    have := ih fun b hb => h b (List.mem_cons_of_mem _ hb)
+    simp only [lossyFF, List.flatMap_cons, ha, if_false] at this ⊢
+    simpa using this
+
 end YashModel.Pipe
